@@ -75,29 +75,29 @@ Proof.
 Qed.
 
 (* ---- the grid ---- *)
-Definition grid2_ok : bool :=
-  forallb (fun o => forallb (fun p => dres_eqb (dispatch (registry o) [fst p; snd p]) (expected2 o (fst p) (snd p)))
+Definition grid2_ok (cf : cfg) : bool :=
+  forallb (fun o => forallb (fun p => dres_eqb (dispatch (registry_of cf o) [fst p; snd p]) (expected2 o (fst p) (snd p)))
                             (pairs grid_kinds grid_kinds)) binary_ops.
-Definition grid1_ok : bool :=
-  forallb (fun o => forallb (fun k => dres_eqb (dispatch (registry o) [k]) (expected1 o k)) grid_kinds) unary_ops.
+Definition grid1_ok (cf : cfg) : bool :=
+  forallb (fun o => forallb (fun k => dres_eqb (dispatch (registry_of cf o) [k]) (expected1 o k)) grid_kinds) unary_ops.
 
-Lemma grid2_checked : grid2_ok = true.
-Proof. vm_compute. reflexivity. Qed.
-Lemma grid1_checked : grid1_ok = true.
-Proof. vm_compute. reflexivity. Qed.
+Lemma grid2_checked : forall cf, grid2_ok cf = true.
+Proof. intros cf. destruct cf; vm_compute; reflexivity. Qed.
+Lemma grid1_checked : forall cf, grid1_ok cf = true.
+Proof. intros cf. destruct cf; vm_compute; reflexivity. Qed.
 
-Lemma dispatch_table2 : forall o a b, In o binary_ops -> In a grid_kinds -> In b grid_kinds ->
-  dispatch (registry o) [a; b] = expected2 o a b.
+Lemma dispatch_table2 : forall cf o a b, In o binary_ops -> In a grid_kinds -> In b grid_kinds ->
+  dispatch (registry_of cf o) [a; b] = expected2 o a b.
 Proof.
-  intros o a b Ho Ha Hb. pose proof grid2_checked as G. unfold grid2_ok in G.
+  intros cf o a b Ho Ha Hb. pose proof (grid2_checked cf) as G. unfold grid2_ok in G.
   rewrite forallb_forall in G. specialize (G o Ho). rewrite forallb_forall in G.
   specialize (G (a, b) (in_pairs _ _ a b Ha Hb)). apply dres_eqb_eq in G. exact G.
 Qed.
 
-Lemma dispatch_table1 : forall o a, In o unary_ops -> In a grid_kinds ->
-  dispatch (registry o) [a] = expected1 o a.
+Lemma dispatch_table1 : forall cf o a, In o unary_ops -> In a grid_kinds ->
+  dispatch (registry_of cf o) [a] = expected1 o a.
 Proof.
-  intros o a Ho Ha. pose proof grid1_checked as G. unfold grid1_ok in G.
+  intros cf o a Ho Ha. pose proof (grid1_checked cf) as G. unfold grid1_ok in G.
   rewrite forallb_forall in G. specialize (G o Ho). rewrite forallb_forall in G.
   specialize (G a Ha). apply dres_eqb_eq in G. exact G.
 Qed.
@@ -105,27 +105,27 @@ Qed.
 (* ---- at most one overload accepts any pair of kinds of the grid: the result cannot depend
    on the order in which the runner enumerates a layer, and the specialization rule is
    never needed ---- *)
-Definition unique_ok : bool :=
-  forallb (fun o => forallb (fun p => Nat.leb (length (acceptors (registry o) [fst p; snd p])) 1)
+Definition unique_ok (cf : cfg) : bool :=
+  forallb (fun o => forallb (fun p => Nat.leb (length (acceptors (registry_of cf o) [fst p; snd p])) 1)
                             (pairs grid_kinds grid_kinds)) binary_ops
-  && forallb (fun o => forallb (fun k => Nat.leb (length (acceptors (registry o) [k])) 1) grid_kinds) unary_ops.
+  && forallb (fun o => forallb (fun k => Nat.leb (length (acceptors (registry_of cf o) [k])) 1) grid_kinds) unary_ops.
 
-Lemma unique_checked : unique_ok = true.
-Proof. vm_compute. reflexivity. Qed.
+Lemma unique_checked : forall cf, unique_ok cf = true.
+Proof. intros cf. destruct cf; vm_compute; reflexivity. Qed.
 
-Lemma dispatch_unique2 : forall o a b, In o binary_ops -> In a grid_kinds -> In b grid_kinds ->
-  length (acceptors (registry o) [a; b]) <= 1.
+Lemma dispatch_unique2 : forall cf o a b, In o binary_ops -> In a grid_kinds -> In b grid_kinds ->
+  length (acceptors (registry_of cf o) [a; b]) <= 1.
 Proof.
-  intros o a b Ho Ha Hb. pose proof unique_checked as G. unfold unique_ok in G.
+  intros cf o a b Ho Ha Hb. pose proof (unique_checked cf) as G. unfold unique_ok in G.
   apply andb_prop in G. destruct G as [G _].
   rewrite forallb_forall in G. specialize (G o Ho). rewrite forallb_forall in G.
   specialize (G (a, b) (in_pairs _ _ a b Ha Hb)). apply Nat.leb_le in G. exact G.
 Qed.
 
-Lemma dispatch_unique1 : forall o a, In o unary_ops -> In a grid_kinds ->
-  length (acceptors (registry o) [a]) <= 1.
+Lemma dispatch_unique1 : forall cf o a, In o unary_ops -> In a grid_kinds ->
+  length (acceptors (registry_of cf o) [a]) <= 1.
 Proof.
-  intros o a Ho Ha. pose proof unique_checked as G. unfold unique_ok in G.
+  intros cf o a Ho Ha. pose proof (unique_checked cf) as G. unfold unique_ok in G.
   apply andb_prop in G. destruct G as [_ G].
   rewrite forallb_forall in G. specialize (G o Ho). rewrite forallb_forall in G.
   specialize (G a Ha). apply Nat.leb_le in G. exact G.
@@ -142,34 +142,34 @@ Definition bool_expected (o : op) (bool_left : bool) (k : kind) : dres :=
   | _, _ => DNoMatch
   end.
 
-Definition bool_ok : bool :=
+Definition bool_ok (cf : cfg) : bool :=
   forallb (fun o => forallb (fun k =>
-      dres_eqb (dispatch (registry o) [KBool; k]) (bool_expected o true k)
-      && dres_eqb (dispatch (registry o) [k; KBool]) (bool_expected o false k)) all_kinds) arith_order_ops
-  && dres_eqb (dispatch (registry UPos) [KBool]) DNoMatch
-  && dres_eqb (dispatch (registry UNeg) [KBool]) DNoMatch.
+      dres_eqb (dispatch (registry_of cf o) [KBool; k]) (bool_expected o true k)
+      && dres_eqb (dispatch (registry_of cf o) [k; KBool]) (bool_expected o false k)) all_kinds) arith_order_ops
+  && dres_eqb (dispatch (registry_of cf UPos) [KBool]) DNoMatch
+  && dres_eqb (dispatch (registry_of cf UNeg) [KBool]) DNoMatch.
 
-Lemma bool_checked : bool_ok = true.
-Proof. vm_compute. reflexivity. Qed.
+Lemma bool_checked : forall cf, bool_ok cf = true.
+Proof. intros cf. destruct cf; vm_compute; reflexivity. Qed.
 
 Lemma all_kinds_complete : forall k, In k all_kinds.
 Proof. destruct k; cbn; tauto. Qed.
 
-Lemma bool_not_number : forall o k, In o arith_order_ops ->
-  dispatch (registry o) [KBool; k] = bool_expected o true k /\
-  dispatch (registry o) [k; KBool] = bool_expected o false k.
+Lemma bool_not_number : forall cf o k, In o arith_order_ops ->
+  dispatch (registry_of cf o) [KBool; k] = bool_expected o true k /\
+  dispatch (registry_of cf o) [k; KBool] = bool_expected o false k.
 Proof.
-  intros o k Ho. pose proof bool_checked as G. unfold bool_ok in G.
+  intros cf o k Ho. pose proof (bool_checked cf) as G. unfold bool_ok in G.
   apply andb_prop in G. destruct G as [G _]. apply andb_prop in G. destruct G as [G _].
   rewrite forallb_forall in G. specialize (G o Ho). rewrite forallb_forall in G.
   specialize (G k (all_kinds_complete k)). apply andb_prop in G. destruct G as [G1 G2].
   split; apply dres_eqb_eq; assumption.
 Qed.
 
-Lemma bool_not_number_unary :
-  dispatch (registry UPos) [KBool] = DNoMatch /\ dispatch (registry UNeg) [KBool] = DNoMatch.
+Lemma bool_not_number_unary : forall cf,
+  dispatch (registry_of cf UPos) [KBool] = DNoMatch /\ dispatch (registry_of cf UNeg) [KBool] = DNoMatch.
 Proof.
-  pose proof bool_checked as G. unfold bool_ok in G.
+  intros cf. pose proof (bool_checked cf) as G. unfold bool_ok in G.
   apply andb_prop in G. destruct G as [G G2]. apply andb_prop in G. destruct G as [_ G1].
   split; apply dres_eqb_eq; assumption.
 Qed.
@@ -187,19 +187,19 @@ Definition null_expected (o : op) (a b : kind) : dres :=
   | None => DNoMatch
   end.
 
-Definition null_ok : bool :=
+Definition null_ok (cf : cfg) : bool :=
   forallb (fun o => forallb (fun k =>
-      dres_eqb (dispatch (registry o) [KNull; k]) (null_expected o KNull k)
-      && dres_eqb (dispatch (registry o) [k; KNull]) (null_expected o k KNull)) all_kinds) order_ops.
+      dres_eqb (dispatch (registry_of cf o) [KNull; k]) (null_expected o KNull k)
+      && dres_eqb (dispatch (registry_of cf o) [k; KNull]) (null_expected o k KNull)) all_kinds) order_ops.
 
-Lemma null_checked : null_ok = true.
-Proof. vm_compute. reflexivity. Qed.
+Lemma null_checked : forall cf, null_ok cf = true.
+Proof. intros cf. destruct cf; vm_compute; reflexivity. Qed.
 
-Lemma null_dispatch : forall o k, In o order_ops ->
-  dispatch (registry o) [KNull; k] = null_expected o KNull k /\
-  dispatch (registry o) [k; KNull] = null_expected o k KNull.
+Lemma null_dispatch : forall cf o k, In o order_ops ->
+  dispatch (registry_of cf o) [KNull; k] = null_expected o KNull k /\
+  dispatch (registry_of cf o) [k; KNull] = null_expected o k KNull.
 Proof.
-  intros o k Ho. pose proof null_checked as G. unfold null_ok in G.
+  intros cf o k Ho. pose proof (null_checked cf) as G. unfold null_ok in G.
   rewrite forallb_forall in G. specialize (G o Ho). rewrite forallb_forall in G.
   specialize (G k (all_kinds_complete k)). apply andb_prop in G. destruct G as [G1 G2].
   split; apply dres_eqb_eq; assumption.
@@ -209,10 +209,10 @@ Qed.
 Lemma gen_kinds_ok : gen_kinds = all_kinds.
 Proof. reflexivity. Qed.
 
-Definition rows_wellformed : bool :=
+Definition rows_wellformed (cf : cfg) : bool :=
   forallb (fun o => forallb (fun c => negb (ov_maps c) ||
                       (Nat.eqb (length (ov_rows c)) (arity o)
                        && forallb (fun r => Nat.eqb (length r) (length all_kinds)) (ov_rows c)))
-                    (concat (ot_layers (registry o)))) all_ops.
-Lemma rows_wellformed_checked : rows_wellformed = true.
-Proof. vm_compute. reflexivity. Qed.
+                    (concat (ot_layers (registry_of cf o)))) all_ops.
+Lemma rows_wellformed_checked : forall cf, rows_wellformed cf = true.
+Proof. intros cf. destruct cf; vm_compute; reflexivity. Qed.
